@@ -130,3 +130,39 @@ extern "C" void k_locid()
   vf_out_int(inum);
   vf_witness();
 }
+
+// C08.h (registered under C08): the locator names Db::_serialize writes (getLocatorName, src/Db/PtrGeos.cpp: keyword of the
+// role, followed by rank+1 for the roles that can be held by several columns) are decoded by locatorIdentify to the same
+// role and rank.  The keywords below restate the documented table (DEF_LOCATOR); the rank digit is symbolic (1..9).
+static const char vf_kw[VF_NELOC][8] = {"x", "z", "v", "f", "g", "lower", "upper", "p", "w", "code", "sel", "dom", "dblk", "adir", "adip",
+                                            "size", "bu", "bd", "time", "layer", "nostat", "tangent", "ncsimu", "facies", "gausfac", "date",
+                                            "rklow", "rkup", "sum"};
+static const int vf_unique[VF_NELOC] = {0, 0, 0, 0, 0, 0, 0, 0, 1, 1, 1, 1, 0, 1, 1, 1, 1, 1, 0, 1, 0, 0, 0, 0, 0, 1, 0, 0, 0};
+extern "C" void k_locname()
+{
+  int digit = vf_range(1, 9);
+#ifdef VF_SOLVER
+  for (int v = -1; v < VF_NELOC; v++) eloc_at(v + 1)->_value = v;
+  eloc_at(VF_NELOC + 1)->_value = -1;
+  const_cast<ELoc&>(ELoc::UNKNOWN)._value = -1;
+#endif
+  ELoc* iloc = (ELoc*)&g_iloc;
+  char buf[12];
+  for (int t = 0; t < VF_NELOC; t++)
+  {
+    int n = 0;
+    while (vf_kw[t][n] != 0) { buf[n] = vf_kw[t][n]; n++; }
+    if (!vf_unique[t]) { buf[n] = (char)('0' + digit); n++; }
+    buf[n] = 0;
+    iloc->_value = -7;
+    int inum = -7, mult = -7;
+    String s(buf, (size_t)n);
+    int err = locatorIdentify(s, iloc, &inum, &mult);
+    bool same = err == 0 && iloc->getValue() == t && inum == (vf_unique[t] ? 0 : digit - 1);
+    if (t == 23 || t == 24)
+      vf_assert_id(same, "locator name of a role whose keyword starts with another keyword (facies, gausfac) decodes to the same role and rank");
+    else
+      vf_assert_id(same, "locator name decodes to the same role and rank");
+  }
+  vf_witness();
+}
